@@ -325,3 +325,20 @@ impl<K, V> Table<K, V> {
         self.next_table.load(Ordering::SeqCst, guard)
     }
 }
+
+#[cfg(flurry_verif)]
+impl<K, V> Table<K, V> {
+    /// `bin` without the verification seam (inspector only).
+    pub(crate) fn bin_unhooked<'g>(
+        &'g self,
+        i: usize,
+        guard: &'g Guard<'_>,
+    ) -> Shared<'g, BinEntry<K, V>> {
+        self.bins[i].load_unhooked(guard)
+    }
+
+    /// `next_table` without the verification seam (inspector only).
+    pub(crate) fn next_table_unhooked<'g>(&'g self, guard: &'g Guard<'_>) -> Shared<'g, Table<K, V>> {
+        self.next_table.load_unhooked(guard)
+    }
+}
